@@ -468,6 +468,27 @@ MUTANTS = [
      "        if self.da_tune_step_size:\n            da_step(", "        if self.da_tune_step_size or epoch.config.type == 2:\n            da_step("),
     ("C11-hmc-finalize-only-after-adaptation", "liesel/goose/hmc.py",
      "        da_finalize(kernel_state)\n        return kernel_state\n", "        kernel_state.step_size = jnp.exp(0.5 * (kernel_state.log_avg_step_size + jnp.log(kernel_state.step_size)))\n        return kernel_state\n"),
+    # ------------------------------------------------------------------ C09
+    ("C09-every-kernel-starts-from-the-iteration-start-state", "liesel/goose/kernel_sequence.py",
+     "        for i, kernel in enumerate(self._kernels):\n            result = kernel.transition(keys[i], kernel_states[i], model_state, epoch)\n            model_state = result.model_state\n",
+     "        start_state = model_state\n        for i, kernel in enumerate(self._kernels):\n            result = kernel.transition(keys[i], kernel_states[i], start_state, epoch)\n            model_state = result.model_state\n"),
+    ("C09-mh-step-keeps-old-log-prob-on-accept", "liesel/goose/mh.py",
+     "        lambda: proposed_model_state,\n",
+     "        lambda: (\n            {**proposed_model_state, \"_model_log_prob\": model_state[\"_model_log_prob\"]}\n            if isinstance(model_state, dict) and \"_model_log_prob\" in model_state\n            else proposed_model_state\n        ),\n"),
+    ("C09-iwls-rejection-returns-proposal-state", "liesel/goose/iwls.py",
+     "            subkey, self.model, proposal, model_state, correction\n", "            subkey, self.model, proposal, model_state_prop, correction\n"),
+    ("C09-kernels-run-in-reverse-order", "liesel/goose/kernel_sequence.py",
+     "        for i, kernel in enumerate(self._kernels):\n            result = kernel.transition(keys[i], kernel_states[i], model_state, epoch)\n            model_state = result.model_state\n            kstates.append(result.kernel_state)\n            infos[kernel.identifier] = result.info\n",
+     "        kstates = [None] * len(self._kernels)\n        for i, kernel in reversed(list(enumerate(self._kernels))):\n            result = kernel.transition(keys[i], kernel_states[i], model_state, epoch)\n            model_state = result.model_state\n            kstates[i] = result.kernel_state\n            infos[kernel.identifier] = result.info\n"),
+    ("C09-gibbs-writes-position-without-model-update", "liesel/goose/gibbs.py",
+     "        model_state = self.model.update_state(position, model_state)\n",
+     "        first = next(iter(model_state.values()), None)\n        if hasattr(first, \"_replace\"):\n            model_state = model_state | {\n                f\"{k}_value\": model_state[f\"{k}_value\"]._replace(value=v)\n                for k, v in position.items()\n            }\n        else:\n            model_state = self.model.update_state(position, model_state)\n"),
+    ("C09-nuts-keeps-derived-nodes-of-previous-state", "liesel/goose/nuts.py",
+     "        model_state = self.model.update_state(blackjax_state.position, model_state)\n        return TransitionOutcome(info, kernel_state, model_state)\n",
+     "        new_state = self.model.update_state(blackjax_state.position, model_state)\n        if isinstance(new_state, dict) and \"_model_log_prob\" in new_state:\n            new_state = new_state | {\"_model_log_prob\": model_state[\"_model_log_prob\"]}\n        return TransitionOutcome(info, kernel_state, new_state)\n"),
+    ("C09-rw-proposes-for-all-tracked-keys", "liesel/goose/kernel.py",
+     "        return self.model.extract_position(self.position_keys, model_state)\n",
+     "        return self.model.extract_position(sorted(self.position_keys), model_state)\n"),
 ]
 
 # Semantics-preserving changes: the property still holds, so the check must NOT raise an alarm.
